@@ -95,7 +95,7 @@ class Check(PropertyCheck):
                 # the EZSP errors the real command path produces: "EZSP is not running" (EzspError) and the NCP answering
                 # the keep-alive with an invalidCommand frame (InvalidCommandError, raised by ProtocolHandler.__call__)
                 cur["n"] = cur.get("n", 0) + 1
-                if cur["n"] % 2:
+                if cur["n"] % 2 and cur["n"] % 3:
                     raise InvalidCommandError(f"{name} command is an invalidCommand, was sent under 0 sequence number: ERROR_INVALID_FRAME_ID")
                 raise EzspError("EZSP is not running")
             if name == "nop":
@@ -110,6 +110,18 @@ class Check(PropertyCheck):
 
         self.stack.script_commands(app._ezsp, handler)
         out = []
+        ez = app._ezsp
+        if not getattr(ez, "_c19_spy", False):
+            orig_command = ez._command
+
+            async def spy(name, *a, **k):
+                if not ez.is_ezsp_running:
+                    spy.seen.append(name)      # refused by EZSP itself ("EZSP is not running") before it reaches the handler
+                return await orig_command(name, *a, **k)
+            ez._command = spy
+            ez._c19_spy = True
+        ez._command.seen = seen
+        stops = {"n": 0}
 
         async def go():
             for k, a in enumerate(seq):
@@ -122,11 +134,22 @@ class Check(PropertyCheck):
                         out.append(["callback:" + type(e).__name__, []])
                 cur["a"] = a
                 del seen[:]
+                # every third EZSP-error outcome is the real thing: the EZSP layer is stopped at the time of the feed (a stack
+                # reset in progress / failed) and refuses the keep-alive by itself
+                stopped = False
+                if a[0] == 2:
+                    stops["n"] += 1
+                    stopped = stops["n"] % 3 == 0
+                if stopped:
+                    ez.stop_ezsp()
                 try:
                     await app._watchdog_feed()
                     raised = None
                 except BaseException as e:  # noqa
                     raised = type(e).__name__
+                finally:
+                    if stopped:
+                        ez.start_ezsp()
                 out.append([raised, list(seen)])
         self.loop.run_until_complete(go())
         return out
